@@ -46,7 +46,7 @@ theorem tab_empty (F : Facts) (a : AccId) (h : F a = emptyRow) (fs : List Field)
   simp only [tab, h, emptyRow]
   induction fs with
   | nil => rfl
-  | cons f r ih => simpa [List.filterMap_cons] using ih
+  | cons f r ih => simp
 
 theorem gives_annot {D : DTab} {v : StateId} {G : Facts} {a : AccId} (h : Gives D [] v (G a)) (fs : List Field) :
     ∃ N, ∀ m, N ≤ m → (inferL D m [] v).map (tabL fs) = some (tab G a fs) := by
